@@ -122,6 +122,14 @@ type Runner struct {
 }
 
 func NewRunner(s *Scratch) *Runner {
+	rn := newRunner(s)
+	if v := os.Getenv("VERIF_MAXCAND"); v != "" {
+		fmt.Sscanf(v, "%d", &rn.MaxCandidates)
+	}
+	return rn
+}
+
+func newRunner(s *Scratch) *Runner {
 	return &Runner{S: s, BatchSize: 200, Workers: 8, GenTimeout: 60 * time.Second, SoloTimeout: 20 * time.Second, MaxCandidates: 40}
 }
 
